@@ -321,6 +321,16 @@ func (c *Conn) Out() []byte {
 	return append([]byte(nil), c.out...)
 }
 
+// OutFrom returns a copy of the server output starting at offset pos.
+func (c *Conn) OutFrom(pos int) []byte {
+	c.mu.Lock()
+	defer c.mu.Unlock()
+	if pos > len(c.out) {
+		pos = len(c.out)
+	}
+	return append([]byte(nil), c.out[pos:]...)
+}
+
 func (c *Conn) OutLen() int {
 	c.mu.Lock()
 	defer c.mu.Unlock()
